@@ -1,6 +1,6 @@
 """C14 — package references resolve to exactly the package the alias table denotes."""
-import itertools, re
-from vlib import core, gen
+import itertools, json, os, re
+from vlib import core, gen, behave, spec, corr
 
 LEVEL = "proof"
 TEXT = ("Whole-segment matching and independence of Go's map iteration order (resolve_order_independent, resolve_hit, resolve_miss), "
@@ -64,6 +64,140 @@ def oracle(req, a):
     return None
 
 
+# ---- references in every position, over fixture packages that export identical, self-identifying symbols ----
+FIXTURES = ["probe/fx", "probe/fx2/pkg", "probe/exp1/os", "probe/deep/fx", "probe/x-y/v2", "probe/a.b/fx"]
+TABLES = [
+    # aliases that are proper string prefixes of the template's own imports (o/os, fm/fmt, github/github.com, contex/context)
+    # must leave those alone; aliases EQUAL to a template import are the recorded finding D10 (C01) and are not used here
+    {"fx": "probe/fx", "deep": "probe/deep", "exp": "probe/exp1", "exp1": "probe/fx2", "p": "probe", "o": "probe/exp1/os", "pro": "probe/fx2", "x-y": "probe/x-y", "a.b": "probe/a.b/fx", "github": "probe/fx"},
+    {"fx": "probe/deep/fx", "f": "probe/fx", "a.b": "probe/a.b", "v2": "probe/x-y/v2", "fm": "probe/fx2/pkg", "probe": "probe/exp1", "contex": "probe/fx", "strcon": "probe/fx"},
+    {},
+]
+TEMPLATE_PATHS = {"context", "errors", "fmt", "os", "reflect", "strconv"}
+
+
+def spellings(path, tbl):
+    """every way the documentation allows to write a reference to package `path` under alias table `tbl`"""
+    out = []
+    first = path.split("/")[0]
+    if first not in tbl:                  # a full path whose first segment is an alias would be rewritten
+        out += [path, '"%s"' % path]
+    for a, p in tbl.items():
+        if path == p:
+            out += [a, '"%s"' % a]
+        elif path.startswith(p + "/"):
+            out += [a + path[len(p):], '"%s"' % (a + path[len(p):])]
+    return out
+
+
+def position_cfg(rng, tbl, local):
+    """one configuration: 6-10 services, each naming a package (by a random spelling) in one position"""
+    svcs, decs, fns, params, used = {}, [], {}, {}, set()
+    expect = {}
+    cands = [(pth, sp) for pth in FIXTURES for sp in spellings(pth, tbl)]
+    if local:
+        cands += [("", '"."')] * 6
+    rng.shuffle(cands)
+    kinds = ["ctor", "value", "ptrvalue", "struct", "type", "valuearg", "decorator", "function"]
+    for k, (pth, sp) in enumerate(cands[: rng.randint(6, 10)]):
+        kind = kinds[k % len(kinds)] if k < len(kinds) else rng.choice(kinds)
+        n = "s%02d" % k
+        used.add(pth)
+        if kind == "ctor":
+            svcs[n] = {"constructor": sp + ".NewA", "arguments": [k]}
+        elif kind == "value":
+            svcs[n] = {"value": sp + ".Global"}
+        elif kind == "ptrvalue":
+            svcs[n] = {"value": "&" + sp + ".GlobalVal"}
+        elif kind == "struct":
+            svcs[n] = {"value": sp + ".Obj{}"}
+            used.discard(pth) if False else None
+        elif kind == "type":
+            svcs[n] = {"constructor": sp + ".NewA", "type": "*" + sp + ".Obj", "getter": "Get" + n.upper()}
+        elif kind == "valuearg":
+            svcs[n] = {"constructor": "%s.NewC" % sp, "arguments": ["!value " + sp + ".Global", "!value &" + sp + ".GlobalVal"]}
+        elif kind == "decorator":
+            svcs[n] = {"constructor": sp + ".NewA", "tags": ["t%d" % k]}
+            decs.append({"tag": "t%d" % k, "decorator": sp + ".Dec1", "arguments": ["!value " + sp + ".Global"]})
+        else:
+            fns["f%d" % k] = sp + ".Fn1"
+            params["p%d" % k] = "%%f%d(1)%%" % k
+            svcs[n] = {"constructor": sp + ".NewB", "arguments": ["%%p%d%%" % k]}
+            expect["p%d" % k] = spec.lab(pth, "Fn1")
+    cfg = {"meta": {"pkg": "gen", "imports": dict(tbl)}, "services": svcs}
+    if fns:
+        cfg["meta"]["functions"] = fns
+        cfg["parameters"] = params
+    if decs:
+        cfg["decorators"] = decs
+    return cfg, used, expect
+
+
+def import_block(src):
+    m = re.search(r"^import \((.*?)^\)", src, re.S | re.M)
+    return re.findall(r'^\s*(\w+)\s+"([^"]+)"', m.group(1), re.M) if m else []
+
+
+def level_b(ctx):
+    n = 9 if ctx.quick else 90
+    items, metas = [], []
+    for i in range(n):
+        tbl = TABLES[i % len(TABLES)]
+        cfg, used, expect = position_cfg(ctx.rng, tbl, local=(i % 2 == 0))
+        ops = [["counters"]] + [["param", p] for p in sorted(cfg.get("parameters", {}))] + [["get", s_] for s_ in cfg["services"]] + [["counters"]]
+        items.append((cfg, ops))
+        metas.append((used, expect))
+    out, err = behave.run_batch(ctx, items, tag="c14", local=True)
+    violations, corr_fail = [], []
+    dist = {"containers": 0, "references_checked": 0, "local_package_refs": 0, "import_blocks_checked": 0}
+    if err:
+        return [{"sig": "probe-build", "what": err, "files": [f for r in out for f in r["files"]][:3]}], [], dist
+    for (cfg, ops), (used, expect), rec in zip(items, metas, out):
+        if not rec["accepted"]:
+            violations.append({"sig": "valid-references-rejected", "what": rec["cli_out"][-500:], "files": rec["files"]}); continue
+        dist["containers"] += 1
+        if rec["impl"] is None:
+            violations.append({"sig": "probe-crash", "what": "%r" % (rec.get("impl_crash"),), "files": rec["files"]}); continue
+        # level A/B correspondence with the model (counters are probe-only)
+        keep = [k for k, o in enumerate(ops) if o[0] != "counters"]
+        if rec.get("model") is not None:
+            mi = [rec["model"][k] for k in keep]
+            for x in behave.compare_script([rec["impl"][k] for k in keep], mi)[:2]:
+                if len(corr_fail) < 10:
+                    corr_fail.append({"op": "rt:reference", "script_op": ops[keep[x[0]]] if isinstance(x[0], int) else x[0], "impl": x[1], "model": x[2], "files": rec["files"]})
+        # every service was made by the symbol of exactly the denoted package
+        for (op, r) in zip(ops, rec["impl"]):
+            if op[0] != "get":
+                continue
+            if "ok" not in r:
+                violations.append({"sig": "reference-fails", "what": "Get(%s): %r" % (op[1], r), "files": rec["files"]}); continue
+            dist["references_checked"] += 1
+            try:
+                deferred = []
+                spec.check_service(cfg, op[1], r["ok"], deferred)
+                spec.check_deferred(cfg, deferred)
+            except spec.Mismatch as e:
+                violations.append({"sig": "reference-wrong-package", "what": str(e), "files": rec["files"]})
+        # parameter functions: the invocation counter of exactly the denoted package's Fn1 moved
+        c0, c1 = rec["impl"][0].get("ok", {}), rec["impl"][-1].get("ok", {})
+        moved = {k for k in c1 if k.endswith("Fn1") and c1[k] != c0.get(k, 0)}
+        if moved != set(expect.values()):
+            violations.append({"sig": "reference-wrong-package", "what": "parameter functions: counters moved for %r, the configuration names %r" % (sorted(moved), sorted(set(expect.values()))), "files": rec["files"]})
+        dist["local_package_refs"] += "" in used
+        # the import block lists exactly the packages the generated code uses, one local name per package
+        src = open(os.path.join(ctx.scratch(), "lb_c14", rec["name"], "gen.go")).read()
+        blk = import_block(src)
+        user = sorted(p for _, p in blk if p not in TEMPLATE_PATHS and not p.startswith("github.com/gontainer/"))
+        want = sorted(p for p in used if p)
+        dist["import_blocks_checked"] += 1
+        if user != want:
+            violations.append({"sig": "import-block", "what": "import block lists %r, the generated code uses %r" % (user, want), "files": rec["files"]})
+        names = [n_ for n_, _ in blk]
+        if len(set(names)) != len(names) or len({p for _, p in blk}) != len(blk):
+            violations.append({"sig": "import-block", "what": "local names / paths are not one-to-one: %r" % (blk,), "files": rec["files"]})
+    return violations, corr_fail, dist
+
+
 def run(ctx, n=None):
     n = n or (4000 if ctx.quick else 60000)
     fixed = [
@@ -98,8 +232,12 @@ def run(ctx, n=None):
             nontriv.add(core.canon(req))
         dist["hit"] += any(r.split("/")[0] == al for al, _ in tbl for r in req["seq"])
         dist["two_aliases_match_prefix"] += any(sum(r.startswith(al) for al, _ in tbl) > 1 for r in req["seq"])
-    return {"evaluations": len(reqs) * 3, "distinct_nontrivial": len(nontriv),
-            "rule": "alias tables (0-4 aliases from a pool with string-prefix relations) x reference sequences (alias, alias/sub, look-alike, full path, template imports); each run 3x on the implementation and once on the model; non-trivial = some alias is a proper string prefix of a reference's first segment",
+    bv, bc, bd = level_b(ctx)
+    violations += bv
+    corr_fail += bc
+    dist.update(bd)
+    return {"evaluations": len(reqs) * 3 + bd["references_checked"], "distinct_nontrivial": len(nontriv), "programs": bd["containers"],
+            "rule": "level B: configurations naming 6 fixture packages (identical self-identifying symbols; equal last elements, '-' and '.' in elements) and the generated package itself (\".\") by every documented spelling (alias, alias/sub-path, full path, each quoted or not) in constructor, value, &value, struct, type, !value argument, decorator and function position, under 3 alias tables; executed in the probe, import block parsed. Level A: alias tables (0-4 aliases from a pool with string-prefix relations) x reference sequences (alias, alias/sub, look-alike, full path, template imports); each run 3x on the implementation and once on the model; non-trivial = some alias is a proper string prefix of a reference's first segment",
             "samples": reqs[:3] + reqs[len(fixed):len(fixed) + 2], "distribution": dist, "violations": violations, "corr_fail": corr_fail}
 
 
